@@ -43,6 +43,10 @@ def site():
         fn = f.f_code.co_filename
         if "/streamz/" in fn and f.f_code.co_name not in ("_retain_refs", "_release_refs", "retain", "release"):
             q = getattr(f.f_code, "co_qualname", f.f_code.co_name)
+            owner = f.f_locals.get("self")
+            if q == "Stream._emit" and owner is not None:
+                # whose _emit: the entry point's (an upstream holding its bracket) or a node's own
+                q += "@" + ("source" if type(owner).__name__ == "Stream" else type(owner).__name__)
             return q
         f = f.f_back
     return "?"
